@@ -155,7 +155,8 @@ def main(tier):
                              de.distance_segment_to_segment, de.distance_point_to_segment, de.project, dl.distance_point_to_segment,
                              dl.distance_segment_to_segment, dl.distance, dl.box_around_point, sg.Segment, inmem.InMemMap.nodes_closeto,
                              inmem.InMemMap.edges_closeto)
-    budget = 60 if tier == 'quick' else 600
+    from symx.common import fit_budget
+    budget = fit_budget(len(instances(tier)), tier, 60, 60)
     insts = [i + (budget,) for i in instances(tier)] + [('fp', 'emitting', 64, 120)] + ([('fp', 'nonemitting', 16, 300)] if tier == 'thorough' else [])
     res = run_instances(run_instance, insts)
     rep.bounds = dict(layouts="line2, oneway2, oneway3, zerolen3" if tier == 'quick' else "line2, oneway2, oneway3, corner3, zerolen3, oneway4, tri",
